@@ -33,6 +33,7 @@ structure OState where
   costs : Rat := 0
   roc : Rat := 0
   overSeen : Bool := false
+  implAcb : List (Aff × Rat) := []   -- the cost base the implementation itself reports, per affiliate (latest row)
 
 def bookClose (mag : Rat) (b : Spec.Book) (sh : Rat) (acb : Option Rat) : Bool :=
   close b.shares sh && closeOptAt mag b.acb acb
@@ -42,6 +43,8 @@ def shortDecimal (q : Rat) : Bool := isInteger (pow10 12 * q) && decide (rabs q 
 
 def sumShares (st : OState) : Rat := sumOver st.affs (fun a => (st.books a).shares)
 def sumAcb (st : OState) : Rat := sumOver st.affs (fun a => ((st.books a).acb).getD 0)
+/-- cost base still held by all affiliates, as the implementation's own rows report it -/
+def sumImplAcb (st : OState) : Rat := (st.implAcb.map (·.2)).foldl (· + ·) 0
 
 /-- Returns the list of failed oracles as (property, message). -/
 partial def oracleRows (mag : Rat) (initAcb : Rat) (c3 : Bool) (complete : Bool) (i : Nat) (st : OState) :
@@ -87,6 +90,7 @@ partial def oracleRows (mag : Rat) (initAcb : Rat) (c3 : Bool) (complete : Bool)
       | .sell sh px comm rate crate _ => { st' with proceeds := st'.proceeds + (px * sh * rate - comm * commRate rate crate) }
       | .roc ps rate => { st' with roc := st'.roc + ps * b.shares * rate }
       | _ => st'
+    let st' := { st' with implAcb := (x.aff, x.post.acb.getD 0) :: st'.implAcb.filter (fun p => p.1 ≠ x.aff) }
     let st' := { st' with gains := st'.gains + x.gain.getD 0,
                           overSeen := st'.overSeen || (match x.sfl with | some s => s.over | none => false) }
     -- a row boundary "with its automatic adjustments applied": the next row is an input row, or
@@ -96,9 +100,9 @@ partial def oracleRows (mag : Rat) (initAcb : Rat) (c3 : Bool) (complete : Bool)
       | [] => complete
     let e3 : List (String × String) :=
       if c3 && boundary && !st'.overSeen then
-        let rhs := st'.proceeds - st'.costs - initAcb + st'.roc + sumAcb st'
+        let rhs := st'.proceeds - st'.costs - initAcb + st'.roc + sumImplAcb st'
         -- 1e-9 per row; beyond 10^13 a 28-digit decimal cannot resolve that: relative 1e-22 per row
-        let mag := [rabs st'.gains, rabs st'.proceeds, rabs st'.costs, rabs (sumAcb st')].foldl (fun m x => if m < x then x else m) 0
+        let mag := [rabs st'.gains, rabs st'.proceeds, rabs st'.costs, rabs (sumImplAcb st')].foldl (fun m x => if m < x then x else m) 0
         let unit : Rat := if 1 / pow10 9 < mag / pow10 22 then mag / pow10 22 else 1 / pow10 9
         if rabs (st'.gains - rhs) ≤ ((i + 1 : Nat) : Rat) * unit then []
         else [("C03", s!"after row {i}: gains so far {ratToString st'.gains} ≠ proceeds−costs+roc+held cost base {ratToString rhs}")]
@@ -118,7 +122,8 @@ def ledgerOracles (dflt : Aff) (init : Option Status) (txs : List Tx) (impls : L
     -- the largest money figure among the implementation's rows (see `Driver.caseMag`)
     let mag := rows.foldl (fun m (_, x) =>
       [rabs (x.pre.acb.getD 0), rabs (x.post.acb.getD 0), rabs (x.gain.getD 0)].foldl (fun m v => if m < v then v else m) m) 0
-    oracleRows mag initAcb c3 complete 0 { books := Spec.Books.init dflt init, affs := [dflt] } rows
+    oracleRows mag initAcb c3 complete 0
+      { books := Spec.Books.init dflt init, affs := [dflt], implAcb := if initAcb == 0 then [] else [(dflt, initAcb)] } rows
 
 def alignedRows (txs : List Tx) (impls : List ImplDelta) : List (Tx × ImplDelta) :=
   (alignRows txs impls).getD []
